@@ -848,8 +848,8 @@ the body for `With` / `AsyncWith`): `RootCtx.register` on `compound` / `tryStmt`
 that forgets a block (seeded change C07-m11: `for … else`, `while … else`) changes the table. -/
 theorem tieA_builder_bodies : Generated.C17.builderBodies = RootCtx.builderBodies := by decide
 
-/-- Tie A (shared with C17): the `visit_*` methods of the builder are the modelled ones — there is none for `Match`
-and none for `TryStar` (K11m, K11t below), and no helper the model does not know. -/
+/-- Tie A (shared with C17): the `visit_*` methods of the builder are the modelled ones —
+`Match` and `TryStar` included since /repo 6e8e4cc (K11m, K11t below), and no helper the model does not know. -/
 theorem tieA_root_builder_visitors :
     FileA.sameMembers Generated.RC.rootBuilderVisitors RootCtx.visitorNames = true := by decide
 
@@ -857,7 +857,9 @@ theorem tieA_root_builder_visitors :
 def initCls (n : String) : Top := .classDef (S n) [] [.funcDef (S "__init__") (fps ["self", "q"]) [] [] false] []
 
 /-- `for item in items: pass / else: class C: def __init__ …` and the same below `while`, `if`, `with`, in every block of
-`try`, and two levels deep (`if` → `for … else`). -/
+`try`, and two levels deep (`if` → `for … else`); since /repo 6e8e4cc also below a `case` of `match` (first case, a later
+case with a guard, nested in `for … else`) and in every block of `try … except* …` (`ast.TryStar`: `visit_TryStar`
+delegates to `visit_Try`, the harness encodes it as `tryStmt`). -/
 def mBlocks : List (List Top) :=
   [[.compound (S "For") [.expr (nm "item"), .expr (nm "items"), .compound (S "Pass") [], initCls "C"]],
    [.compound (S "While") [.expr (nm "flag"), .compound (S "Pass") [], initCls "C"]],
@@ -865,26 +867,44 @@ def mBlocks : List (List Top) :=
    [.compound (S "With") [.expr (nm "ctx"), initCls "C"]],
    [.tryStmt [initCls "A"] [.compound (S "ExceptHandler") [.expr (nm "E"), initCls "B"]] [initCls "C"] [initCls "D"]],
    [.compound (S "If") [.expr (nm "flag"),
-      .compound (S "For") [.expr (nm "item"), .expr (nm "items"), .compound (S "Pass") [], initCls "C"]]]]
+      .compound (S "For") [.expr (nm "item"), .expr (nm "items"), .compound (S "Pass") [], initCls "C"]]],
+   [.compound (S "Match") [.expr (nm "flag"), .compound (S "match_case") [.expr .const, initCls "C"]]],
+   [.compound (S "Match") [.expr (nm "flag"), .compound (S "match_case") [.expr .const, .compound (S "Pass") []],
+      .compound (S "match_case") [.expr .const, .expr (nm "guard"), initCls "C", initCls "D"]]],
+   [.compound (S "For") [.expr (nm "item"), .expr (nm "items"), .compound (S "Pass") [],
+      .compound (S "Match") [.expr (nm "flag"), .compound (S "match_case") [.expr .const, initCls "C"]]]],
+   [.tryStmt [initCls "A"] [.compound (S "ExceptHandler") [.expr (nm "E"), .compound (S "Pass") []],
+      .compound (S "ExceptHandler") [.expr (nm "F"), initCls "B"]] [] []]]
 
 /-- **on the current code** each of them passes the predicate and the file stage ends without an exception (tests by
 evaluation of the model; the implementation side is the block-position corpus of py/props/c07blocks.py, through the
 CLI and in `file_tie`). -/
 theorem C07_file_block_positions_registered :
-    mBlocks.map (shapeFile "target" {}) = List.replicate 6 true ∧
-    mBlocks.map (fun m => crashClassO (FileA.analyseFile cexEnv (S "target") {} exBuiltins m)) = List.replicate 6 none := by
+    mBlocks.map (shapeFile "target" {}) = List.replicate 10 true ∧
+    mBlocks.map (fun m => crashClassO (FileA.analyseFile cexEnv (S "target") {} exBuiltins m)) = List.replicate 10 none := by
   decide +kernel
 
-/-- K11m / K11t: the same class below a `case` of `match`, and inside `try … except* …` (`ast.TryStar`: no visitor) —
-`ValueError` of `ClassAnalyser.symbol`; both are rejected by the predicate. (K11t found in round 4.) -/
+/-- K11m / K11t (known findings of round 4, **fixed in /repo 6e8e4cc**: `visit_Match`, `visit_TryStar`): the class below
+a `case` of `match` and the class inside `try … except* …` now get their Class symbol — the file stage ends normally,
+the class is in the FileIr, and the predicate accepts both modules. (Before the fix both ended in the `ValueError` of
+`ClassAnalyser.symbol`; a worktree at bcdf6de still shows it through the CLI.) -/
 def mK11match : List Top :=
   [.compound (S "Match") [.expr (nm "flag"), .compound (S "match_case") [.expr .const, initCls "C"]]]
 def mK11trystar : List Top :=
-  [.compound (S "TryStar") [initCls "C", .compound (S "ExceptHandler") [.expr (nm "E"), .compound (S "Pass") []]]]
-theorem C07_cex_file_K11_match_trystar :
-    crashClassO (FileA.analyseFile cexEnv (S "target") {} exBuiltins mK11match) = some (S "ValueError") ∧
-    crashClassO (FileA.analyseFile cexEnv (S "target") {} exBuiltins mK11trystar) = some (S "ValueError") ∧
-    shapeFile "target" {} mK11match = false ∧ shapeFile "target" {} mK11trystar = false := by decide +kernel
+  [.tryStmt [initCls "C"] [.compound (S "ExceptHandler") [.expr (nm "E"), .compound (S "Pass") []]] [] []]
+theorem C07_file_K11_match_trystar_fixed :
+    crashClassO (FileA.analyseFile cexEnv (S "target") {} exBuiltins mK11match) = none ∧
+    crashClassO (FileA.analyseFile cexEnv (S "target") {} exBuiltins mK11trystar) = none ∧
+    shapeFile "target" {} mK11match = true ∧ shapeFile "target" {} mK11trystar = true := by decide +kernel
+
+/-- the mechanism stays what it was: a statement with nested statement lists that the builder has NO visitor for (none
+is left in the Python 3.12 grammar: Tie A `tieA_root_builder_visitors`, and C12's `tieA_block_visitors`) hides its
+definitions from the root context while the file analyser reaches them — `ValueError` of `ClassAnalyser.symbol`,
+rejected by the predicate. -/
+def mK11unvisited : List Top := [.compound (S "SomeFutureBlock") [initCls "C"]]
+theorem C07_cex_file_K11_unvisited_block :
+    crashClassO (FileA.analyseFile cexEnv (S "target") {} exBuiltins mK11unvisited) = some (S "ValueError") ∧
+    shapeFile "target" {} mK11unvisited = false := by decide +kernel
 
 /-! ## Round 4 — (2) the output side: encoder × stream (RattrModel.OutputEncode) -/
 
